@@ -6,6 +6,9 @@ def text_edit(old, new):
         return src.replace(old, new, 1) if old in src else None
     return edit
 MUTANTS = [
+    Mutant('unjoin_ascending', 'src/pharmpy/model/random_variables.py', text_edit("for i in reversed(remove):", "for i in remove:"), 'V2', 'ascending index deletion'),
+    Mutant('replace_skips_canonicalize', 'src/pharmpy/model/model.py', text_edit("        parameters = Model._canonicalize_parameter_estimates(parameters, random_variables)\n\n        if 'dataset' in kwargs:", "        if 'parameters' in kwargs or False:\n            parameters = Model._canonicalize_parameter_estimates(parameters, random_variables)\n\n        if 'dataset' in kwargs:"), 'V3', 'estimates only checked when parameters are given'),
+    Mutant('sdcorr_reads_output', 'src/pharmpy/model/random_variables.py', text_edit("sigma = sigma_sym.subs(values).to_numpy()", "sigma = sigma_sym.subs(newdict).to_numpy()"), 'V4', 'conversion reads the dictionary it writes'),
     Mutant('return_a2', M, text_edit("    if is_positive_semidefinite(A3):\n        return A3", "    if is_positive_semidefinite(A3):\n        return A2"), 'V1', 'returns another matrix than the tested one'),
     Mutant('drop_loop', M, edit_node('nearest_positive_semidefinite', compound_containing('while not is_positive_semidefinite(A3)', ast.While), lambda seg: 'pass'), 'V1', 'final return not established PSD'),
     Mutant('first_return_copy', M, text_edit("    if is_positive_semidefinite(A):\n        return A\n", "    if is_positive_semidefinite(A):\n        return A.copy()\n"), 'V1', 'valid matrix returned as a new object'),
